@@ -87,7 +87,7 @@ class C14Scenario(ChangeScenario):
                     continue
                 for hid in resume:
                     n = len(succ.get((op, uid, hid), []))
-                    script_ends_ok = resume[hid].get('script', ['ok'])[-1].startswith('ok')
+                    script_ends_ok = resume[hid].get('script', ['ok'])[-1].startswith('ok')   # a permanently failed one never succeeds
                     if n == 0 and script_ends_ok:
                         out.append(self.viol(env, 'not-resumed', f"resume handler {hid} never succeeded for pre-existing object {uid} in process {op} "
                                                                  f"(started at {t0}; judged at {env.now})", clause='exactly-once'))
@@ -111,8 +111,8 @@ def histories(depth: int) -> list[list[tuple[str, ...]]]:
     return out
 
 
-def build(history: list[tuple[str, ...]], spacing: float, scripts: tuple[list[str], list[str]], late_b: bool, **kw: Any) -> C14Scenario:
-    handlers = [dict(id='c1', on='create', script=['ok']), dict(id='u1', on='update', script=['ok']),
+def build(history: list[tuple[str, ...]], spacing: float, scripts: tuple[list[str], ...], late_b: bool, **kw: Any) -> C14Scenario:
+    handlers = [dict(id='c1', on='create', script=['ok']), dict(id='u1', on='update', script=scripts[2] if len(scripts) > 2 else ['ok']),
                 dict(id='r1', on='resume', script=scripts[0]), dict(id='r2', on='resume', script=scripts[1]),
                 dict(id='r3', on='resume', script=['ok'], deleted=True)]
     user: list[tuple] = [(1.0, 'create', 'a'), (6.0, 'restart')]
@@ -134,8 +134,10 @@ def build(history: list[tuple[str, ...]], spacing: float, scripts: tuple[list[st
 
 def run(tier: str, seed: int) -> CheckResult:
     depth = 3 if tier == 'quick' else 4
-    script_sets = [(['ok'], ['temp', 'ok']), (['ok'], ['ok'])] if tier == 'quick' else \
-        [(['ok'], ['temp', 'ok']), (['ok'], ['ok']), (['temp', 'ok'], ['temp', 'temp', 'ok']), (['arb', 'ok'], ['ok'])]
+    # (resume r1, resume r2[, update u1]); a handler that fails for good has finished as well
+    script_sets: list[tuple[list[str], ...]] = [(['ok'], ['temp', 'ok']), (['ok'], ['ok']), (['ok'], ['perm']), (['ok'], ['ok'], ['perm'])] if tier == 'quick' else \
+        [(['ok'], ['temp', 'ok']), (['ok'], ['ok']), (['temp', 'ok'], ['temp', 'temp', 'ok']), (['arb', 'ok'], ['ok']),
+         (['ok'], ['perm']), (['ok'], ['ok'], ['perm']), (['perm'], ['temp', 'ok'], ['temp', 'perm'])]
     hist = [build(h, sp, sc, late_b=(len(h) <= 1), delays=False, early_user=False, time_dev=False)
             for h in histories(depth) for sp in (1.0, 8.0) for sc in script_sets]
     timing = [build(h, 2.0, script_sets[0], late_b=False, kills=True) for h in histories(1 if tier == 'quick' else 2)]
